@@ -1,6 +1,7 @@
 package main
 
 import (
+	"strings"
 	"fmt"
 
 	"golang.org/x/tools/go/ssa"
@@ -50,18 +51,46 @@ func checkPerIteration(c *Ctx, rule string, fn *ssa.Function, over, callee strin
 		return
 	}
 	n := 0
-	for _, l := range loopsRangingOver(fn, over) {
-		if !l.containsInstr(isCallNamed(callee)) {
-			continue
+	// the loop may live in fn or in a same-package helper fn calls (extracted block); a loop over a local slice is
+	// recognised by role (innermost range loop over a local/parameter that contains the call), not by the variable's name
+	cands := []*ssa.Function{fn}
+	for _, ci := range callsOf(fn) {
+		if g := ci.Common().StaticCallee(); g != nil && g != fn && g.Pkg == fn.Pkg && len(g.Blocks) > 0 {
+			cands = append(cands, g)
 		}
-		n++
-		bad := l.MustPassPerIteration(c.P, isCallNamed(callee), skipOK...)
-		key := fmt.Sprintf("each-%s-passes-%s:%s", over, callee, fn.Name())
-		c.Check(rule, key, l.Header.Instrs[0].Pos(), bad == "", detail+" ("+bad+")")
+	}
+	overLocal := strings.HasPrefix(over, "var:")
+	for _, f := range cands {
+		loops := loopsOf(f)
+		for _, l := range loops {
+			if l.Kind == "for" || !l.containsInstr(isCallNamed(callee)) {
+				continue
+			}
+			match := l.elemTypeName() == over || l.Over == over
+			if !match && overLocal && (strings.HasPrefix(l.Over, "var:") || strings.HasPrefix(l.Over, "param:")) {
+				// innermost loop containing the call
+				match = true
+				for _, l2 := range loops {
+					if l2 != l && l2.Kind != "for" && l2.containsInstr(isCallNamed(callee)) && len(l2.Blocks) < len(l.Blocks) && l.Blocks[l2.Header] {
+						match = false
+					}
+				}
+			}
+			if !match {
+				continue
+			}
+			n++
+			bad := l.MustPassPerIteration(c.P, isCallNamed(callee), skipOK...)
+			key := fmt.Sprintf("each-%s-passes-%s:%s", over, callee, fn.Name())
+			c.Check(rule, key, l.Header.Instrs[0].Pos(), bad == "", detail+" ("+bad+")")
+		}
+		if n >= floor {
+			break
+		}
 	}
 	if n < floor {
 		c.Check(rule, fmt.Sprintf("each-%s-passes-%s:%s", over, callee, fn.Name()), fn.Pos(), false,
-			fmt.Sprintf("no loop over %s containing a call to %s found in %s: %s", over, callee, fn.Name(), detail))
+			fmt.Sprintf("no loop over %s containing a call to %s found in %s (or a helper it calls): %s", over, callee, fn.Name(), detail))
 	}
 }
 
